@@ -19,7 +19,7 @@ from engine.adapters import c03
 
 TEXT = {'s01': 'x+2', 's02': ' x  + 2 ', 's03': 'f(x)', 's04': 'x(2)', 's05': 'f', 's06': '2k', 's07': '2u',
         's08': 'u*x', 's09': '(x', 's10': 'x+', 's11': 'f(u,)', 's12': 'g(x,x_1)', 's13': '2^-3', 's14': 'k(2%)/u',
-        's15': '23', 's16': '2\t3', 's17': 'xx_1', 's18': 'x\nx_1'}
+        's15': '23', 's16': '2\t3', 's17': 'xx_1', 's18': 'x\nx_1', 's19': ' x  +'}
 
 
 def observe_call(parser, text, op, sc, shared):
@@ -38,7 +38,7 @@ def observe_call(parser, text, op, sc, shared):
         return {'c': 'value', 'value': val, 'vars': sorted(usage.variables_used),
                 'funcs': sorted(usage.functions_used), 'sufs': sorted(usage.suffixes_used)}, usage
     except Exception as e:  # noqa
-        return {'c': X.classify_exception(e)}, None
+        return {'c': X.classify_exception(e), 'msg': str(e)}, None
 
 
 def matches_model(model, obs):
@@ -65,6 +65,8 @@ def same_obs(a, b):
             return False
     if a['c'] == 'value':
         return X.same_observation(a, b)
+    if a.get('msg') != b.get('msg'):
+        return False                     # the error raised (class AND text) is part of the outcome
     return True
 
 
@@ -187,12 +189,12 @@ def interleave_chunk(items, extra):
     sc = X.t_scope()
     vec_vars = {k: MathArray([1.0, float(i + 2)]) for i, k in enumerate(sorted(sc[0]))}
 
-    def fresh_observe(text):
+    def fresh_observe(text, scope=None):
         """the same evaluator() call with a brand-new parser swapped in for the shared one"""
         shared = E.PARSER
         E.PARSER = E.MathParser()
         try:
-            return X.observe(text, lambda *a: E.evaluator(*a, max_array_dim=1), sc)
+            return X.observe(text, lambda *a: E.evaluator(*a, max_array_dim=1), scope or sc)
         finally:
             E.PARSER = shared
     out = []
@@ -212,10 +214,18 @@ def interleave_chunk(items, extra):
         for k in range(count):
             r = rng.random()
             if r < 0.08:
+                sub = rng.choice(['x*x+sin(y)', 'x^2+', 'z+1', '(x', 'x^2+sin(y)+0*cos(x)', 'sin(y)+x^2'])
                 try:
-                    fg(None, rng.choice(['x*x+sin(y)', 'x^2+', 'z+1', '(x', 'x^2+sin(y)+0*cos(x)']))
+                    fg(None, sub)
                 except Exception:  # noqa
                     pass
+                # what the grader did with the parsed expression must not show in a later parse of the same text
+                gsc = ({'x': 1.5, 'y': 0.5}, dict(E.DEFAULT_FUNCTIONS), dict(E.DEFAULT_SUFFIXES))
+                o = X.observe(sub, lambda *a: E.evaluator(*a, max_array_dim=1), gsc)
+                of = fresh_observe(sub, gsc)
+                out.append({'id': rid, 'toks': None, 'text': sub, 'obs': X.obs_record(o), 'fresh_class': of['c'],
+                            'same_as_fresh': X.same_observation(o, of) and all(o.get(kk) == of.get(kk) for kk in ('vars', 'funcs', 'sufs'))})
+                rid += 1
                 continue
             if r < 0.12:
                 try:
@@ -257,7 +267,7 @@ def interleave_chunk(items, extra):
             o = X.observe(case['text'], lambda *a: E.evaluator(*a, max_array_dim=1), sc)
             rec = {'id': case['id'], 'toks': case['toks'], 'text': case['text'], 'obs': X.obs_record(o)}
             of = fresh_observe(case['text'])
-            rec['same_as_fresh'] = X.same_observation(o, of) and all(o.get(k) == of.get(k) for k in ('vars', 'funcs', 'sufs'))
+            rec['same_as_fresh'] = X.same_observation(o, of) and all(o.get(k) == of.get(k) for k in ('vars', 'funcs', 'sufs', 'msg'))
             rec['fresh_class'] = of['c']
             out.append(rec)
     return out
@@ -323,7 +333,7 @@ def run(ctx):
     items = [(ctx.seed * 104729 + k, per, k * per) for k in range(nrec // per)]
     recs = [r for ch in dump.pmap('engine.adapters.c10', 'interleave_chunk', items) for r in ch]
     rej = traces.validate(ctx, 'expr/ExprTrace.tla', 'expr/ExprTrace.cfg',
-                          [{k: r[k] for k in ('id', 'toks', 'obs')} for r in recs], timeout=6000)
+                          [{k: r[k] for k in ('id', 'toks', 'obs')} for r in recs if r['toks'] is not None], timeout=6000)
     ctx.count(len(recs))
     byid = {r['id']: r for r in recs}
     ctx.sample({'interleaved_record': {k: recs[0][k] for k in ('text', 'obs')}})
